@@ -129,3 +129,47 @@ package ociauth
 //@ func (Scope).Iter
 //@   modifies nothing
 //@   ensures result != nil
+
+// ---------------------------------------------------------------------------
+// C19: credential lookup from a Docker-style config file.
+//
+// EntryForRegistry: a per-host helper wins over the default store, which wins
+// over the auths table; a missing default helper falls back to the table; the
+// helper is run exactly once with (helper name, host). In the table, an entry
+// reached through several URL-form keys fails, and the entry returned carries
+// exactly the fields of the table entry. The result is a function of the
+// decoded data and the helper's answer only (no iteration over a map).
+//@ invariant (*ConfigFile) self != nil
+//@ immutable ConfigFile.data, ConfigFile.runner
+//@ pure func chosenHelper(c *ConfigFile, host string) string = in(c.data.CredHelpers, host) ? c.data.CredHelpers[host] : c.data.CredsStore
+//@ func (*ConfigFile).EntryForRegistry
+//@   requires c.runner != nil
+//@   private c
+//@   ensures[helper-consulted-exactly-once] chosenHelper(c, registryHostname) != "" ==> calls == [c.runner(chosenHelper(c, registryHostname), registryHostname)]
+//@   ensures[no-helper-no-call] chosenHelper(c, registryHostname) == "" ==> ncalls() == 0
+//@   ensures[per-host-helper-wins] in(c.data.CredHelpers, registryHostname) && c.data.CredHelpers[registryHostname] != "" ==>
+//@     calls == [c.runner(_, _)] && result.0 == calls[0].result.0 && result.1 == calls[0].result.1
+//@   ensures[default-store-wins-over-the-table] !in(c.data.CredHelpers, registryHostname) && c.data.CredsStore != "" ==>
+//@     calls == [c.runner(_, _)] && ((calls[0].result.1 != nil && errIs(calls[0].result.1, ErrHelperNotFound)) ||
+//@       (result.0 == calls[0].result.0 && result.1 == calls[0].result.1))
+//@   ensures[several-url-keys-for-one-host-fail] (chosenHelper(c, registryHostname) == "" ||
+//@       (calls == [c.runner(_, _)] && !in(c.data.CredHelpers, registryHostname) && calls[0].result.1 != nil && errIs(calls[0].result.1, ErrHelperNotFound))) &&
+//@     len(c.data.Auths[registryHostname].derivedFrom) > 1 ==> result.1 != nil
+//@   ensures[table-entry-returned-as-is] (chosenHelper(c, registryHostname) == "" ||
+//@       (calls == [c.runner(_, _)] && !in(c.data.CredHelpers, registryHostname) && calls[0].result.1 != nil && errIs(calls[0].result.1, ErrHelperNotFound))) && result.1 == nil ==>
+//@     result.0.Username == c.data.Auths[registryHostname].Username && result.0.Password == c.data.Auths[registryHostname].Password &&
+//@     result.0.RefreshToken == c.data.Auths[registryHostname].IdentityToken && result.0.AccessToken == c.data.Auths[registryHostname].RegistryToken &&
+//@     len(c.data.Auths[registryHostname].derivedFrom) <= 1
+
+// decodeAuth: the decoded text is split at its first colon: the user name is
+// non-empty and holds no colon, and user + ":" + password (before the NUL
+// trimming that mirrors the docker CLI) is exactly the decoded text.
+//@ func decodeAuth
+//@   modifies nothing
+//@   ensures[split-at-the-first-colon] result.2 == nil ==> result.0 != "" && !contains(result.0, ":") &&
+//@     hasPrefix(string(s), result.0 + ":") && password == string(s)[len(result.0) + 1:]
+//@   ensures[no-user-no-credentials] result.2 != nil ==> result.0 == "" && result.1 == ""
+
+//@ func urlHost
+//@   modifies nothing
+//@   ensures[no-path] !contains(result, "/")
